@@ -17,3 +17,7 @@ package model
 //@ modifies nothing
 //@ ensures_ok result0 != nil && fresh(result0) && result0.Obj == obj
 //@ ensures_err istype(result1, "*ovsdb.ErrWrongType")
+
+//@ func (DatabaseModel).FindTable group c15
+//@ modifies nothing
+
